@@ -103,10 +103,13 @@ print(json.dumps(out))
 def csv_anomaly_lines():
     lines = []
     # writer-side: None in output, delimiter in simple output (with and without the anomaly)
-    for pol, d in (('simple', ','), ('simple', '\t'), ('quoted', ','), ('whitespace', ' ')):
-        for table in ([['a', 'b']], [['a', None]], [['a,b', 'c']], [['a b', 'c']], [['a\tb', 'c']], [[None, 'x,y'], ['p', 'q']], [['a', 'b'], ['c', 'd']]):
-            t = ';'.join(','.join('N' if c is None else enc_str(c) for c in r) for r in table)
-            lines.append('roundtrip %s 0 none %s %s %s' % (pol, enc_str(d), enc_str('\n'), t))
+    import corr_C10
+    for pol, d in (('simple', ','), ('simple', '\t'), ('quoted', ','), ('whitespace', ' '), ('quoted', '|'), ('quoted_rfc', ';')):
+        for table in ([['a', 'b']], [['a', None]], [['a,b', 'c']], [['a b', 'c']], [['a\tb', 'c']], [[None, 'x,y'], ['p', 'q']], [['a', 'b'], ['c', 'd']],
+                      # list-valued cells (split / ARRAY_AGG / list literals): a None INSIDE the list is a None written to CSV as well
+                      [['a', ['x', 'y']]], [['a', ['x', None]]], [[[None], 'b']], [[[], 'b']], [['a', ['x', 'y']], ['c', [None, None, 'z']]], [[['p|q', 'r;s'], 'b']]):
+            for js, enc in ((0, 'none'), (1, 'utf-8')):
+                lines.append('roundtrip %s %d %s %s %s %s' % (pol, js, enc, enc_str(d), enc_str('\n'), corr_C10.enc_cell_table(table)))
     # reader-side: BOM, defective quoting (warning under quoted, IO error under quoted_rfc), field counts with record numbers
     texts = ['a,b\nc,d\n', '﻿a,b\nc,d\n', 'a,b\nc"x,d\n', 'a,"b"x\n', 'a,b\nc\nd,e,f\n', 'a\nb,c\nd\n', '"a\nb",c\nd,"e"f\n', 'a,b\n#x\nc\n', '"a,b\n', 'x,"y""z",w\n']
     for t in texts:
@@ -136,6 +139,14 @@ def run(res, tier, seed):
     lines = csv_anomaly_lines()
     # the BOM cases must reach the reader as text with encoding utf-8: use readboth-free path (pieces as text need enc none); keep enc none for text
     lines = [l.replace(' utf-8 ', ' none ') for l in lines]
+    jslines = [l for l in lines if l.startswith('roundtrip ') and l.split(' ')[2] == '1']
+    lines = [l for l in lines if l not in jslines]
+    badjs = common.differential(res, jslines, impls=('js',))
+    for b in badjs[:5]:
+        res.violations.append({'property': 'C14', 'impl': 'js', 'why': 'CSV-level warning/error differs from the model', 'line': b['line'], 'model_says': b['model'], 'impl_says': b['got'],
+                               'case_key': 'C14|csv|' + b['line']})
+    res.count('csv_anomaly_cases_js', len(jslines))
+    res.count('csv_anomaly_disagreements_js', len(badjs))
     bad = common.differential(res, lines, impls=('py',))
     for b in bad[:5]:
         res.violations.append({'property': 'C14', 'impl': 'py', 'why': 'CSV-level warning/error differs from the model', 'line': b['line'], 'model_says': b['model'], 'impl_says': b['got'],
